@@ -177,6 +177,28 @@ def main():
                 kept.append((i, op, res, blob_of(res)))
                 rec["mutated"] = any(not np.array_equal(a, b) for a, b in zip(q + user_arrays, copies))
                 last = step
+            elif op == "multiply":
+                # P@S built from the SasView-style objects of the parts, which share their definitions with the
+                # stand-alone models of the same class
+                from sasmodels.sasview_model import _make_standard_model, MultiplicationModel
+                parts = []
+                for name in (step["P"], step["S"]):
+                    if name not in classes:
+                        classes[name] = _make_standard_model(name)
+                    if (name, "a") not in svm:
+                        svm[(name, "a")] = classes[name]()
+                    parts.append(svm[(name, "a")])
+                prod = MultiplicationModel(*parts)
+                graveyard.append(prod)
+                for k_, v in step["pars"].items():
+                    prod.setParam(k_, v)
+                q = qvec(step)
+                copies = [a.copy() for a in q]
+                res = prod.evalDistribution(q[0] if len(q) == 1 else q)
+                rec["hex"] = np.asarray(res, float).tobytes().hex()
+                kept.append((i, op, res, blob_of(res)))
+                rec["mutated"] = any(not np.array_equal(a, b) for a, b in zip(q, copies))
+                last = step
             else:
                 rec["err"] = "unknown op"
         except Exception as exc:
